@@ -46,7 +46,8 @@ KEYS = ["version", "a", "a/b", "ns/all", "ns/all/x", "config-file", "net/listene
         "dir/status/fp/AA+BB", "desc/name/moria1*", "md/id/(x)", "ns/purpose/bridge?", "a.b", "aXb"]
 PRINTABLE = st.text(alphabet=st.characters(min_codepoint=0x20, max_codepoint=0x7e), max_size=60)
 TRAPS = ["OK", " OK", "250 OK", "250-a=b", "650 CIRC", ".", "..", "\"\"", "\"", "'", "\"a\"", "'a'", "\"a", "a\"",
-         "a=b", "a b=c", " =", "= ", "k=", "=", "DEFAULT", " ", "  x  ", "version=1", "a=1"]
+         "a=b", "a b=c", " =", "= ", "k=", "=", "DEFAULT", " ", "  x  ", "version=1", "a=1",
+         " .", "\t.", " . ", ". "]
 
 
 def _values():
@@ -85,6 +86,19 @@ def getconf_cases():
         st.sampled_from(CONF_NAMES),
         st.one_of(st.none(), st.just([""]), st.lists(_values(), min_size=1, max_size=4)),
         st.sampled_from(["get_conf", "get_conf_single"]), _events())
+
+
+def long_value_cases():
+    """'random longer text': a value is one line however long it is (Tor's lines are not limited to 16 KiB)"""
+    for n in (16383, 16384, 16385, 70000, 300000):
+        yield {"pairs": [["version", "x" * (n - 10) + " y=z \"q\""]], "chunk": None}
+        yield {"pairs": [["a", "v"], ["config-file", "/" + "d" * n]], "chunk": 1448}
+
+
+def long_conf_cases():
+    for n in (16384, 100000):
+        for api in ("get_conf", "get_conf_single"):
+            yield {"name": "ContactInfo", "asked": "ContactInfo", "values": ["c" * n], "api": api, "event": None}
 
 
 def exhaustive_getinfo(maxlen):
@@ -350,3 +364,5 @@ def run(ctx):
     ctx.search("getconf", getconf_cases(), quick=600, thorough=8000)
     n = 3 if ctx.quick() else 4
     ctx.enumerate("getinfo", exhaustive_getinfo(n), name="all-values-len<=%d-over-critical-alphabet" % n)
+    ctx.enumerate("getinfo", long_value_cases(), name="long-single-line-values")
+    ctx.enumerate("getconf", long_conf_cases(), name="long-option-values")
